@@ -138,6 +138,15 @@ func c02(c *ev.Ctx) {
 	c02ConstantConditions(c)
 	c02ExitHistories(c)
 	c02StringElements(c)
+	// a hash whose keys print alike (1 and "1", 1.5 and "1.5") is visited entry by entry, each
+	// exactly once - the order among such keys is free (oracle shared with C16)
+	for ti, h := range c16TieHashes() {
+		for prov := 0; prov < 2; prov++ {
+			if id := fmt.Sprintf("ties/%d/%d", ti, prov); c.Want(id) {
+				c16TieCheck(c, id, h, prov)
+			}
+		}
+	}
 	// fixed regression / probe cases
 	c02Probes(c)
 }
